@@ -256,6 +256,22 @@ def symmetric_shapes(slice_i, n):
                        "il": [[0, 0, 0] if i == "t" else [1, env[i], env[i]] for i in ids], "dc": [], "extra": []}
 
 
+def empty(slice_i, n):
+    """groups without sub-propositions inside every connective; nothing / one leaf / the empty group itself is assumed, every
+    total interpretation of the rest"""
+    for spec in S.empty_shapes(slice_i, n):
+        lv = oracle.spec_leaves(spec)
+        ids = sorted(lv)
+        for who, dc in ((None, []), ("b", []), (None, [[0, 1, 0]]), (None, [[1, 0, 1]])):
+            if who is not None and who not in lv:
+                continue
+            others = [i for i in ids if i != who]
+            for vals in itertools.product(*[range(lv[i][0], lv[i][1] + 1) for i in others]):
+                env = dict(zip(others, vals))
+                yield {"model": spec, "dl": [[2, 1, 1] if i == who else [0, 0, 0] for i in ids],
+                       "il": [[0, 0, 0] if i == who else [1, env[i], env[i]] for i in ids], "dc": dc, "extra": []}
+
+
 def parts(tier):
-    return [Part("symmetric_shapes%d" % i, enumerate_cases=(lambda t, i=i: symmetric_shapes(i, 2)), check=check, time_quick=120.0) for i in range(2)] + [Part("compound_siblings", strategy=lambda t: siblings_case(t), check=check, quick=(2, 250), thorough=(4, 3000))] + [Part("wide_nodes", strategy=lambda t: wide_assume_case(t), check=check, quick=(2, 150), thorough=(4, 2000))] + [Part("assume", strategy=lambda t: case_strategy(t), check=check, quick=(8, 300), thorough=(16, 2500)),
+    return [Part("empty0", enumerate_cases=(lambda t: empty(0, 1)), check=check, time_quick=120.0)] + [Part("symmetric_shapes%d" % i, enumerate_cases=(lambda t, i=i: symmetric_shapes(i, 2)), check=check, time_quick=120.0) for i in range(2)] + [Part("compound_siblings", strategy=lambda t: siblings_case(t), check=check, quick=(2, 250), thorough=(4, 3000))] + [Part("wide_nodes", strategy=lambda t: wide_assume_case(t), check=check, quick=(2, 150), thorough=(4, 2000))] + [Part("assume", strategy=lambda t: case_strategy(t), check=check, quick=(8, 300), thorough=(16, 2500)),
             Part("symmetric", strategy=lambda t: symmetric_case(t), check=check, quick=(3, 300), thorough=(6, 2500))]
